@@ -264,6 +264,9 @@ HAND_TWO = [
     {"kind": "current", "trees": [{"top": [["imm", "a0"]], "nested": {"a0": [["imm", "a1"], ["rel", "a2", 0.01]]}}, {"top": [["imm", "b0"], ["imm", "b1"]], "nested": {"b0": [["imm", "b2"]]}}]},
     {"kind": "singleton", "trees": [{"top": [["imm", "a0"]], "nested": {"a0": [["imm", "a1"]]}}, {"top": [["imm", "b0"]], "nested": {"b0": [["imm", "b1"], ["cancel", "b1"]]}}]},
     {"kind": "trampoline", "trees": [{"top": [["imm", "a0"]], "nested": {"a0": [["imm", "a1"]]}}, {"top": [["imm", "b0"]], "nested": {}}]},
+    # the smallest shared-trampoline program (first use of a fresh scheduler by two threads at once): enumerated with two preemptions
+    # in the quick tier as well
+    {"kind": "trampoline", "small": True, "trees": [{"top": [["imm", "a0"]], "nested": {}}, {"top": [["imm", "b0"]], "nested": {}}]},
 ]
 
 
@@ -275,7 +278,8 @@ def units(tier: str, seed: int) -> list[dict]:
     for lo in range(0, n, per):
         us.append({"mode": "single", "lo": lo, "hi": lo + per, "seed": seed})
     for hi, _ in enumerate(HAND_TWO):
-        us.append({"mode": "dfs", "hand": hi, "bound": 1 if q else 2, "seed": seed, "max_runs": 1500 if q else 60000})
+        small = HAND_TWO[hi].get("small")
+        us.append({"mode": "dfs", "hand": hi, "bound": (2 if small else 1) if q else (3 if small else 2), "seed": seed, "max_runs": (6000 if small else 1500) if q else 60000})
     nprog, pp = (12, 3) if q else (120, 6)
     for lo in range(0, nprog, pp):
         us.append({"mode": "random", "progs": [lo, lo + pp], "runs": 40 if q else 300, "seed": seed})
